@@ -34,6 +34,7 @@ type notifExp struct {
 	del   bool
 	level int // 2 = must, 1 = optional, 0 = must not
 	step  int
+	msg   []byte // set for writes made on another connection (scenarios)
 }
 
 type judged struct {
@@ -432,6 +433,22 @@ func judge(res *Result) *judged {
 			}
 
 		case kCancel:
+			if res.Scen != nil {
+				// writes made on other connections while the qsub was stalled in its query phase
+				if s := subs[rq.OpID]; s != nil && s.q.Understood && len(s.expect) == 0 {
+					for _, w := range res.ExtWrites {
+						if !(len(w.Replies) == 1 && w.Replies[0] == "success") {
+							continue
+						}
+						db, dbKey := splitKey(w.Key)
+						e := notifExp{key: w.Key, del: w.Kind == kDelete, step: s.step, msg: w.Msg}
+						if db == s.q.DB && strings.HasPrefix(dbKey, s.q.Prefix) {
+							e.level = 2
+						}
+						s.expect = append(s.expect, e)
+					}
+				}
+			}
 			s := subs[rq.OpID]
 			if s == nil {
 				// nothing to cancel: the statement prescribes no reply; an error reply is accepted
@@ -466,6 +483,10 @@ func judge(res *Result) *judged {
 			}
 			jd.outcomes = append(jd.outcomes, label+"-"+s.kind+":"+compress(all))
 		}
+	}
+
+	if res.Scen != nil {
+		judgeScen(jd, res)
 	}
 
 	// 2. replies that belong to no request of the case
@@ -575,7 +596,11 @@ func checkNotifications(jd *judged, res *Result, s *subState) {
 				}
 			}
 		}
-		writes = append(writes, fmt.Sprintf("step %d %s (%s)", e.step, q(res.Steps[e.step].Msg), []string{"must not notify", "may notify", "must notify"}[e.level]))
+		wmsg := res.Steps[e.step].Msg
+		if e.msg != nil {
+			wmsg = e.msg
+		}
+		writes = append(writes, fmt.Sprintf("step %d %s (%s)", e.step, q(wmsg), []string{"must not notify", "may notify", "must notify"}[e.level]))
 	}
 	disc := "wrong-notification"
 	switch {
